@@ -38,26 +38,43 @@ type c12env struct {
 }
 
 // serialFake is installed through VerifSetSerialOpenFunc.
+type serialCall struct {
+	start, end time.Time
+	ok         bool
+}
+
 type serialFake struct {
-	mu      sync.Mutex
-	opens   int
-	failN   int // fail the next n opens
-	ports   []*fake.Transport
-	onOpen  func(n int, tr *fake.Transport)
-	log     []string
-	errOpen error
+	mu    sync.Mutex
+	opens int
+	failN int // fail the next n opens
+	// slowFail: a failing open takes this long to fail (a wedged adapter, a slow driver)
+	slowFail time.Duration
+	calls    []serialCall
+	ports    []*fake.Transport
+	onOpen   func(n int, tr *fake.Transport)
+	log      []string
+	errOpen  error
 }
 
 func (s *serialFake) open(device string, baud int) (io.ReadWriteCloser, error) {
+	t0 := time.Now()
 	s.mu.Lock()
 	s.opens++
 	n := s.opens
 	if s.failN > 0 {
 		s.failN--
 		s.log = append(s.log, fmt.Sprintf("open#%d failed", n))
+		slow := s.slowFail
+		s.mu.Unlock()
+		if slow > 0 {
+			time.Sleep(slow)
+		}
+		s.mu.Lock()
+		s.calls = append(s.calls, serialCall{t0, time.Now(), false})
 		s.mu.Unlock()
 		return nil, s.errOpen
 	}
+	s.calls = append(s.calls, serialCall{t0, time.Now(), true})
 	// the previous port must have been closed before a new one is opened
 	tr := fake.NewTransport(fmt.Sprintf("serial%d", n))
 	s.ports = append(s.ports, tr)
